@@ -54,6 +54,11 @@ class Module:
         for st in body:
             if isinstance(st, (ast.FunctionDef,)):
                 self.funcs[prefix + st.name] = FuncInfo(self, prefix + st.name, st, cls)
+                # closures defined directly in the body: addressable as outer.inner (their free variables are declared
+                # by the contract like module globals: symbolic, fixed for the duration of the call)
+                for sub in st.body:
+                    if isinstance(sub, ast.FunctionDef):
+                        self.funcs[prefix + st.name + "." + sub.name] = FuncInfo(self, prefix + st.name + "." + sub.name, sub, None)
             elif isinstance(st, ast.ClassDef):
                 self.classes[prefix + st.name] = st
                 self._index(st.body, prefix + st.name + ".", st.name)
